@@ -121,3 +121,30 @@ Qed.
 (* adding one: everything before the final colon, the arrow, the type, the colon *)
 Theorem add_return_typ_spec h rt : add_return_typ (h ++ s2l ":") rt = h ++ s2l " -> " ++ rt ++ s2l ":".
 Proof. unfold add_return_typ. rewrite rpartition_last, app_nil_r. reflexivity. Qed.
+
+(* ---- find_cst_at_ast ---- *)
+Lemma find_cst_from_spec : forall l i lineno kind name k,
+  find_cst_from i l lineno kind name = Some k ->
+  exists j c, k = (i + j)%nat /\ nth_error l j = Some c /\ cst_matches lineno kind name c = true
+              /\ forall j' c', (j' < j)%nat -> nth_error l j' = Some c' -> cst_matches lineno kind name c' = false.
+Proof.
+  induction l as [|c r IH]; intros i lineno kind name k H; [discriminate|]. cbn [find_cst_from] in H.
+  destruct (cst_matches lineno kind name c) eqn:E.
+  - injection H as <-. exists O, c. repeat split; [lia | exact E |]. intros j' c' Hj. lia.
+  - destruct (IH (S i) lineno kind name k H) as [j [c2 [Hk [Hn [Hm Hf]]]]].
+    exists (S j), c2. repeat split; [lia | exact Hn | exact Hm |].
+    intros [|j'] c' Hj Hn'; cbn in Hn'; [injection Hn' as <-; exact E | apply (Hf j' c'); [lia | exact Hn']].
+Qed.
+
+Theorem find_cst_first_match l lineno kind name k :
+  find_cst l lineno kind name = Some k ->
+  exists c, nth_error l k = Some c /\ cst_matches lineno kind name c = true
+            /\ forall j' c', (j' < k)%nat -> nth_error l j' = Some c' -> cst_matches lineno kind name c' = false.
+Proof. intro H. destruct (find_cst_from_spec l O lineno kind name k H) as [j [c [-> R]]]. exists c. exact R. Qed.
+
+Theorem find_cst_none l lineno kind name :
+  find_cst l lineno kind name = None -> forall c, In c l -> cst_matches lineno kind name c = false.
+Proof.
+  unfold find_cst. generalize O. induction l as [|c r IH]; intros i H x Hx; [destruct Hx|]. cbn [find_cst_from] in H.
+  destruct (cst_matches lineno kind name c) eqn:E; [discriminate|]. destruct Hx as [<-|Hx]; [exact E | exact (IH (S i) H x Hx)].
+Qed.
